@@ -547,7 +547,7 @@ DIRECTED = [
 def gen_sequences(rng, tier):
     for d in DIRECTED:
         yield list(d), "directed"
-    n = 500 if tier == "quick" else 8000
+    n = 500 if tier == "quick" else (2000 if tier == "escalate" else 8000)
     maxlen = 6 if tier == "quick" else 9
     for _ in range(n):
         L = rng.randint(3, maxlen)
@@ -569,7 +569,7 @@ def gen_module_sequences(rng, tier):
     """byte-identical texts evaluated under different active modules with differing module / global bindings.
     Module switches are spelled identically or with trailing blanks (repeated identical `.module(:m)` texts were
     the finding C04-cached-module-switch, repaired by 012f393)."""
-    n = 120 if tier == "quick" else 1500
+    n = 120 if tier == "quick" else (400 if tier == "escalate" else 1500)
     for _ in range(n):
         sp = iter([0] * 50) if rng.random() < 0.6 else iter(range(1, 50))
         texts = rng.sample(MOD_TEXTS, rng.randint(2, 4))
@@ -589,7 +589,7 @@ def gen_cache_sequences(rng, tier):
     binds = ['a::2', 'a::"ab"', 'a::[1 2]', 'a::[]', 'a::5', 'b::3', 'b::[3 4]', 'b::"xy"', 'b::2', 'a::b', 'c::a*b', 'a::[7 8]', 'b::[]']
     exprs = ['a*b', 'a-b', '#a*b', '#(a*b)-a', '(a*b)-2', '#a-b', 'c::a*b', '#(a-b)*(a*2)', 'a*(b*2)', '#b*a',
              '+/a', 'c::+/a', '(+/a)*b', '+/a*b', '#+/a', '(+/a)-+/b', 'c::(+/a)-2']
-    n = 400 if tier == "quick" else 6000
+    n = 400 if tier == "quick" else (1500 if tier == "escalate" else 6000)
     for _ in range(n):
         seq = ['a::2', 'b::3'] if rng.random() < 0.7 else [rng.choice(binds[:5]), rng.choice(binds[5:9])]
         L = rng.randint(3, 6 if tier == "quick" else 9)
@@ -602,7 +602,7 @@ def gen_cache_sequences(rng, tier):
 def gen_view_sequences(rng, tier):
     """Part B grammar, generated structurally: (text, model statement)"""
     names = ['a', 'b', 'c', 'd']
-    n = 300 if tier == "quick" else 5000
+    n = 300 if tier == "quick" else (1200 if tier == "escalate" else 5000)
     for _ in range(n):
         lens = {}
         seq, mod = [], []
@@ -788,7 +788,8 @@ def run(tier, replay=None):
     replay_known(chk)
     bad_props, bad_corrs = check_all(chk, rng, tier)
     if (bad_corrs or not proof["ok"]) and not bad_props and tier == "quick":
-        bad_props, _ = check_all(chk, random.Random(chk.seed + 1), "thorough")
+        # bounded wider sweep: the quick tier stays under ~4 min in total
+        bad_props, _ = check_all(chk, random.Random(chk.seed + 1), "escalate")
     for bp in bad_props[:3]:
         chk.violation("C04 property fails on the implementation: %s" % bp["kind"], bp)
     if not chk.violations:
